@@ -79,6 +79,11 @@ int main(int argc, char **argv)
 				R.ok(false);
 				continue;
 			}
+			if (o.timeout && !o.deadlock)
+			{	// a reader waited longer than the real-time guard although the peer was not blocked: machine load, not a verdict
+				printf("{\"t\":\"error\",\"what\":\"real-time guard fired in %s (machine too slow?)\"}\n", jesc(caseid).c_str());
+				continue;
+			}
 			runs++;
 			lines += o.pv.size() + o.vp.size();
 			bool ok = o.accept && !o.v_std && !o.v_other && !o.p_std && !o.p_other && o.p_ok && !o.timeout && !o.deadlock;
